@@ -10,7 +10,7 @@ RULE = ('random histories with redundant subscribes/unsubscribes, refused reques
         'after EVERY event the prometheus samples are compared with the harness\'s own count (open connections; per channel the '
         'connections whose active set holds it; made/lost counters) and with the Coq model (aspects %s); non-trivial = at least one '
         'subscription gauge was created')
-PLAN = [(120, 3000, dict(profile='mixed', faults=0.1, nops=10), False),
+PLAN = [(40, 600, dict(scenario='reauth_leave'), False), (40, 800, dict(profile='mixed', faults=0.1, nops=10, reauth=0.08), False), (120, 3000, dict(profile='mixed', faults=0.1, nops=10), False),
         (100, 2500, dict(profile='mixed', chunking='frames', faults=0.08, nops=10), True),
         (40, 800, dict(profile='hostile'), False),
         (30, 600, dict(profile='mixed', async_=True, faults=0.1), False)]
